@@ -56,4 +56,31 @@ theorem fastdiag_two (K1 M1 U1 L1 : Matrix n n K) (K2 M2 U2 L2 : Matrix m m K) (
 
 end fastdiag
 
+section d3
+open Matrix
+open scoped Kronecker
+variable {n m l K : Type*} [Fintype n] [DecidableEq n] [Fintype m] [DecidableEq m]
+  [Fintype l] [DecidableEq l] [CommRing K]
+
+theorem fastdiag_three (K1 M1 U1 L1 : Matrix n n K) (K2 M2 U2 L2 : Matrix m m K) (K3 M3 U3 L3 : Matrix l l K)
+    (Dinv : Matrix ((n × m) × l) ((n × m) × l) K)
+    (h1 : K1 * U1 = M1 * U1 * L1) (o1 : U1ᵀ * M1 * U1 = 1)
+    (h2 : K2 * U2 = M2 * U2 * L2) (o2 : U2ᵀ * M2 * U2 = 1)
+    (h3 : K3 * U3 = M3 * U3 * L3) (o3 : U3ᵀ * M3 * U3 = 1)
+    (hD : Dinv * ((L1 ⊗ₖ (1 : Matrix m m K)) ⊗ₖ (1 : Matrix l l K)
+                + ((1 : Matrix n n K) ⊗ₖ L2) ⊗ₖ (1 : Matrix l l K)
+                + ((1 : Matrix n n K) ⊗ₖ (1 : Matrix m m K)) ⊗ₖ L3) = 1) :
+    (((U1 ⊗ₖ U2) ⊗ₖ U3) * Dinv * ((U1 ⊗ₖ U2) ⊗ₖ U3)ᵀ)
+      * ((K1 ⊗ₖ M2) ⊗ₖ M3 + (M1 ⊗ₖ K2) ⊗ₖ M3 + (M1 ⊗ₖ M2) ⊗ₖ K3) = 1 := by
+  apply fastdiag_abs _ ((U1 ⊗ₖ U2) ⊗ₖ U3) (((U1ᵀ * M1) ⊗ₖ (U2ᵀ * M2)) ⊗ₖ (U3ᵀ * M3)) _ Dinv _ hD
+  · rw [← Matrix.mul_kronecker_mul, ← Matrix.mul_kronecker_mul, gen_eig_inv M1 U1 o1, gen_eig_inv M2 U2 o2,
+      gen_eig_inv M3 U3 o3, Matrix.one_kronecker_one, Matrix.one_kronecker_one]
+  · have ht : ((U1 ⊗ₖ U2) ⊗ₖ U3)ᵀ = (U1ᵀ ⊗ₖ U2ᵀ) ⊗ₖ U3ᵀ := by
+      rw [← Matrix.kroneckerMap_transpose, ← Matrix.kroneckerMap_transpose]
+    rw [ht]
+    simp only [Matrix.mul_add, Matrix.add_mul, ← Matrix.mul_kronecker_mul]
+    rw [gen_eig_diag K1 M1 U1 L1 h1 o1, gen_eig_diag K2 M2 U2 L2 h2 o2, gen_eig_diag K3 M3 U3 L3 h3 o3, o1, o2, o3]
+
+end d3
+
 end Pyiga.Ops
